@@ -52,7 +52,7 @@ def bookkeeping_stress(tier, scripts=None):
     drv, err = vlib.build_driver('em_driver')
     if err:
         return None, {}
-    rounds = 120 if tier == 'quick' else 1000
+    rounds = 120 if tier == 'quick' else 400
     scripts = scripts or [('pn%d' % t, ['maxthreads %d' % mgr.MAXTHREADS, 'threads %d' % t, 'update', 'pcreatenew %d 3' % rounds, 'pregister %d' % (rounds * 3)]) for t in (2, 4, 8)]
     io, _ = emcmp.run_driver(drv, emcmp.scripts_text(scripts), os.path.join(vlib.BUILD, 'work', PROP + '-pn'), timeout=1200)
     created = 0
